@@ -27,7 +27,7 @@ Vocabulary (token = name:field:field..., integers; d = empty destination slot, s
                          (rez:d:s = copy-assign onto a moved-from object; never generated: it crashes Manifold)
 Numeric fields are scaled inside the harness (/4, /8, *15 degrees ...), so the text is the exact replay.
 """
-import subprocess
+import os, re, subprocess
 
 NSLOT = 16
 MAXLIVE = 12
